@@ -47,3 +47,7 @@ pub fn iter_sum_f32(v: &[f32]) -> (r: f32)
 {
     v.iter().sum()
 }
+
+// R7: error message text is opaque (no claimed property depends on it)
+#[verifier::external_body]
+pub fn errmsg() -> (r: String) { String::new() }
